@@ -90,11 +90,7 @@ func (e envChoice) String() string {
 var scratchHome string
 
 func setupHome() {
-	base := os.Getenv("ZZ_DETSIM_SCRATCH") // the driver's scratch directory: removed when the check ends
-	if base == "" {
-		base = "/var/tmp"
-	}
-	d, err := os.MkdirTemp(base, "zzdetsim-home.")
+	d, err := os.MkdirTemp(scratchBase(), "zzdetsim-home.")
 	if err != nil {
 		return
 	}
@@ -114,6 +110,15 @@ func setupHome() {
 	for _, lang := range []string{"go", "cc", "ts"} {
 		os.WriteFile(filepath.Join(d, "overlay", lang+"_shared.go.tmpl"), []byte("{{define \"header\" -}}\n// generated for the simulator's overlay; DO NOT EDIT\n\n{{end}}\n"), 0o644)
 	}
+}
+
+// scratchBase is the driver's scratch directory (removed when the check ends, also when
+// a child was killed half-way through a run).
+func scratchBase() string {
+	if base := os.Getenv("ZZ_DETSIM_SCRATCH"); base != "" {
+		return base
+	}
+	return "/var/tmp"
 }
 
 func cleanupHome() {
@@ -321,7 +326,7 @@ func (engine) Run(src *sim.Src, log *sim.Log, res *sim.Result) {
 			a := cands[src.Draw(len(cands))]
 			b := cands[src.Draw(len(cands))]
 			if a != b {
-				if d, err := os.MkdirTemp("/var/tmp", "zzdetsim-rewrite."); err == nil {
+				if d, err := os.MkdirTemp(scratchBase(), "zzdetsim-rewrite."); err == nil {
 					rewriteDir = d
 					defer os.RemoveAll(d)
 					planned = []int{a, b}
